@@ -29,7 +29,7 @@ import core
 from ser import Ser, Ids, Unsupported, rat
 
 LEAN_MODULE = "Optyx.Props.C16"
-EXTRA_MODULES = ["Optyx.Props.PinsC16", "Optyx.Props.VarsTie", "Optyx.Props.VarsStepTie", "Optyx.Props.SpineTie"]   # transcription anchors (harness/source_pins.py)
+EXTRA_MODULES = ["Optyx.Props.PinsC16", "Optyx.Props.VarsTie", "Optyx.Props.VarsStepTie", "Optyx.Props.SpineTie", "Optyx.Props.VarsIterTie"]   # transcription anchors (harness/source_pins.py)
 THEOREMS = [
     "Optyx.Props.C16.problemVariables_spec",
     "Optyx.Props.C16.generalVariables_spec",
@@ -57,6 +57,10 @@ THEOREMS = [
     "Optyx.Props.SpineTie.depthG_eq",
     "Optyx.Props.SpineTie.compileSwitch_eq",
     "Optyx.Props.SpineTie.getAllVariables_eq",
+    "Optyx.Props.VarsIterTie.atomVars_eq",
+    "Optyx.Props.VarsIterTie.vstep_seen",
+    "Optyx.Props.VarsIterTie.vstep_fresh",
+    "Optyx.Props.VarsIterTie.varsIter_frame",
     "Optyx.Props.PinsC16.anchors",
 ]
 ASSUMPTIONS = [
